@@ -51,8 +51,30 @@ func runC38(r *Run) {
 	defer os.RemoveAll(dir)
 	path := filepath.Join(dir, "config.yml")
 	alphabet := []string{"A", "BB", "CCC", "DDDD"}
+	if r.W.Pick(3) == 0 {
+		alphabet = []string{"A", "B", "CC", "DD"} // different contents of equal length
+	}
 	cur := alphabet[0]
-	_ = os.WriteFile(path, []byte(cur), 0o644)
+	// File times are set by the harness (one second per mutation, or kept, as `cp -p` and
+	// `rsync -t` do), so that nothing depends on the wall clock of the machine.
+	t0 := time.Date(2024, 1, 1, 0, 0, 0, 0, time.UTC)
+	mtime := t0
+	stamp := func(keep bool) {
+		if !keep {
+			mtime = mtime.Add(time.Second)
+		}
+		_ = os.Chtimes(path, mtime, mtime)
+	}
+	// the configuration path may be a symbolic link that is swapped to publish new content
+	viaLink := r.W.Pick(4) == 0
+	gen := 0
+	if viaLink {
+		_ = os.WriteFile(filepath.Join(dir, "real-0"), []byte(cur), 0o644)
+		_ = os.Symlink("real-0", path)
+	} else {
+		_ = os.WriteFile(path, []byte(cur), 0o644)
+	}
+	stamp(true)
 	exists := true
 	read := func() string {
 		b, err := os.ReadFile(path)
@@ -157,6 +179,7 @@ func runC38(r *Run) {
 				cur = alphabet[r.W.Pick(len(alphabet))]
 				r.Op("write")
 				_ = os.WriteFile(path, []byte(cur), 0o644)
+				stamp(r.W.Pick(3) == 0)
 				exists = true
 				mutations++
 				notify(fsnotify.Write)
@@ -164,11 +187,13 @@ func runC38(r *Run) {
 				next := alphabet[r.W.Pick(len(alphabet))]
 				r.Op("torn-write")
 				_ = os.WriteFile(path, nil, 0o644)
+				stamp(false)
 				mutations++
 				mutTimes = append(mutTimes, time.Now())
 				notify(fsnotify.Write)
 				simrt.Sleep(at(1+r.W.Pick(150)), "c38.torn")
 				_ = os.WriteFile(path, []byte(next), 0o644)
+				stamp(false)
 				cur, exists = next, true
 				mutations++
 				notify(fsnotify.Write)
@@ -176,8 +201,23 @@ func runC38(r *Run) {
 				cur = alphabet[r.W.Pick(len(alphabet))]
 				r.Op("atomic-replace")
 				tmp := path + ".tmp"
-				_ = os.WriteFile(tmp, []byte(cur), 0o644)
-				_ = os.Rename(tmp, path)
+				keep := r.W.Pick(3) == 0
+				if viaLink && r.W.Pick(2) == 0 {
+					// ln -sfn: a new target, the link is replaced atomically
+					r.Probe("symlink_swapped")
+					gen++
+					target := fmt.Sprintf("real-%d", gen)
+					_ = os.WriteFile(filepath.Join(dir, target), []byte(cur), 0o644)
+					_ = os.Symlink(target, tmp)
+					_ = os.Rename(tmp, path)
+				} else {
+					_ = os.WriteFile(tmp, []byte(cur), 0o644)
+					_ = os.Rename(tmp, path)
+				}
+				if keep {
+					r.Probe("replaced_keeping_size_or_mtime")
+				}
+				stamp(keep)
 				exists = true
 				mutations++
 				notify(fsnotify.Create)
@@ -195,6 +235,7 @@ func runC38(r *Run) {
 					mutations++
 				}
 				_ = os.WriteFile(path, []byte(cur), 0o644)
+				stamp(r.W.Pick(2) == 0)
 				exists = true
 				notify(fsnotify.Write)
 			case 6: // watcher trouble
